@@ -39,6 +39,13 @@ def volume_hook(mod):
         if ca and ca[0] == "attr" and ca[1].key() == "self" and ca[2] == "volume" and not args:
             sub = Ev(fn, mod.ctx, attr_hook=property_hook(mod, "UnitCell")).run()
             return sub.returns[0].value
+        # other zero-argument helper methods with a single return (e.g. a closed-form inverse factored out of the setter)
+        if ca and ca[0] == "attr" and ca[1].key() == "self" and not args and not kwargs and ca[2] not in ("_set_cell_type",):
+            f2 = mod.funcs.get(f"UnitCell.{ca[2]}")
+            if f2 is not None and len([n for n in ast.walk(f2) if isinstance(n, ast.Return)]) == 1 and len(f2.args.args) == 1:
+                sub = Ev(f2, mod.ctx, attr_hook=property_hook(mod, "UnitCell"), call_hook=hook).run()
+                if sub.returns and sub.returns[0].value is not None and not any(e.kind in ("store", "aug") for e in sub.events):
+                    return sub.returns[0].value
         return None
     return hook
 
@@ -55,6 +62,10 @@ def run(chk):
     chk.rule("R12.3", "set_vectors pairs alpha-(b,c), beta-(c,a), gamma-(a,b); accessors use the ordinal of the axis they are named after", 20)
     chk.rule("R12.4", "angle units: every path into set_lengths_and_angles delivers radians; call sites agree with their unit=", 10)
     chk.rule("R12.5", "to_cartesian / to_fractional are right-multiplications by direct / inverse; reciprocal_lattice = inverse^T", 4)
+    chk.rule("R12.6", "who may write the geometry: lengths, angles, direct and inverse are written only by set_lengths_and_angles and set_vectors "
+                      "(classification and accessors write none of them)", 4)
+    if chk.want("R12.6"):
+        r12_6(chk, uc)
     hook = volume_hook(uc)
     ev = uc.ev("UnitCell.set_lengths_and_angles", call_hook=hook, attr_hook=property_hook(uc, "UnitCell"))
     chk.saw(UC, "UnitCell.set_lengths_and_angles")
@@ -165,9 +176,13 @@ def r12_3(chk, uc):
     chk.saw(UC, q)
     vec = P.name(ev.param_names[1])
     st = {e.target.key(): e.value for e in ev.events if e.kind == "store"}
-    chk.ob("R12.3", UC, q, "direct is the given matrix and inverse its numerical inverse",
-           st.get("self.direct") is not None and st["self.direct"].key() == vec.key() and
-           st.get("self.inverse") is not None and st["self.inverse"].key() == "numpy.linalg.inv(self.direct)", found=str({k: str(v) for k, v in st.items()})[:200])
+    invs = [e for e in ev.events if e.kind == "store" and e.target.key() == "self.inverse"]
+    chk.ob("R12.3", UC, q, "direct is the given matrix and inverse its numerical inverse, on every path (a closed form in lengths and angles only "
+           "holds for the standard orientation with positive diagonal)",
+           st.get("self.direct") is not None and st["self.direct"].key() == vec.key() and bool(invs) and
+           all(e.value.key() in ("numpy.linalg.inv(self.direct)", f"numpy.linalg.inv({vec})") for e in invs),
+           node=invs[0].node if invs else None, fingerprint="vectors-inverse",
+           found=str([("" if not e.guards else "under " + str(e.guards[-1][0])[:60] + ": ") + str(e.value)[:80] for e in invs])[:300])
     L = st.get("self.lengths")
     items = seq_items(L) if L is not None else None
     norm = "numpy.linalg.norm(self.direct, axis=1)"
@@ -292,3 +307,27 @@ def r12_4(chk, repo, uc):
     chk.ob("R12.4", UC, "UnitCell.hexagonal", "hexagonal passes radian literals and forces unit='radians'",
            unit is not None and string_value(unit) == "radians" and tag_of(call[0].extra["args"][1]) == "rad",
            found=f"unit={unit} angles={call[0].extra['args'][1] if call else None}")
+
+
+def r12_6(chk, uc):
+    from ..effects import Effects
+    fx = Effects(chk.repo)
+    GEOM = {"lengths", "angles", "direct", "inverse"}
+    owners = {"set_lengths_and_angles", "set_vectors", "__init__"}
+    n = 0
+    for fn in uc.methods("UnitCell"):
+        if fn.name in owners or any(isinstance(d, ast.Name) and d.id in ("classmethod", "staticmethod") for d in fn.decorator_list):
+            continue
+        ws = [w for w in fx.method_writes(UC, "UnitCell", fn.name) if w.attr in GEOM]
+        # writes that happen only through calling an owner are the owner's
+        ev = uc.ev(f"UnitCell.{fn.name}")
+        direct = [e for e in ev.events if e.kind in ("store", "aug") and e.target.as_atom() and
+                  ((e.target.as_atom()[0] == "attr" and e.target.as_atom()[1].key() == "self" and e.target.as_atom()[2] in GEOM) or
+                   (e.target.as_atom()[0] == "sub" and e.target.as_atom()[1].key() in {f"self.{g}" for g in GEOM}))]
+        n += 1
+        if direct or fn.name == "_set_cell_type":
+            chk.saw(UC, f"UnitCell.{fn.name}")
+        chk.ob("R12.6", UC, f"UnitCell.{fn.name}", "does not write lengths, angles, direct or inverse itself", not direct, node=fn,
+               fingerprint=f"writes:{fn.name}", found=[f"line {e.lineno}: {e.target} = {str(e.value)[:60]}" for e in direct][:2],
+               nontrivial=fn.name == "_set_cell_type" or bool(direct))
+    chk.need(n >= 10, f"R12.6: only {n} UnitCell methods inspected")
